@@ -67,6 +67,15 @@ def units(rng, tier):
         else:
             p["d"] = rng.choice([1, 2, 5])
         us.append({"kind": "cbldm_args", "params": p, "cmp": "excmatch", "family": "cbldm/" + kind, "invalid": kind != "valid"})
+    # the same invalid arguments with an EMPTY item collection: validation comes first, so the refusal is still ValueError
+    for fmt in ("list", "dict_str"):
+        for kind, extra in (("k", {"k": 3}), ("k", {"k": 1}), ("k", {"k": 0}), ("tl", {"time_limit": 0}), ("tl", {"time_limit": -1}), ("d", {"d": 0}), ("d", {"d": -3}),
+                            ("dfloat", {"d": 1, "d_float": True, "d_frac": 0.5})):
+            p = {"k": 2, "vals": [], "fmt": fmt}
+            if fmt != "list":
+                p["ids"] = []
+            p.update(extra)
+            us.append({"kind": "cbldm_args", "params": p, "cmp": "excmatch", "family": "cbldm/empty+" + kind, "invalid": True})
     for keep in (0, 1):
         for i in range(3):
             us.append({"kind": "numitems", "params": {"keep": keep, "k": 3, "i": i}, "cmp": "eq", "family": "numitems"})
